@@ -397,23 +397,28 @@ int main(int argc, char** argv) {
           try { shared.wait(); } catch (const std::runtime_error&) { exc = true; book.excSeen[sharedId]++; }
           dsched::note("ret wait %d 1 %d", sharedId, exc ? 1 : 0);
         }
-        // quiescence: all task sets have been waited for; wait until the directly submitted tasks finished
+        // quiescence: all task sets have been waited for; wait until the directly submitted tasks finished.
+        // Half of the scenarios skip this and destroy the pool at once, with direct tasks possibly still
+        // queued (~ThreadPool must run them) or sitting where only the destructor will find them.
         int nIds = (int)dsched::ghostGet(9);
-        for (int spin = 0; spin < 20000; ++spin) {
+        bool destroyAtOnce = rng.below(2) == 0;
+        for (int spin = 0; !destroyAtOnce && spin < 20000; ++spin) {
           bool all = true;
           for (int id = 1; id <= nIds; ++id) if (book.setOf[id] == 0 && !book.ended[id]) all = false;
           if (all) break;
           std::this_thread::sleep_for(std::chrono::microseconds(300));   // lets virtual time pass: parked workers wake by their backstop
         }
         long w = 0;
-        for (int spin = 0; spin < 4000; ++spin) {
+        for (int spin = 0; !destroyAtOnce && spin < 4000; ++spin) {
           w = (long)pool.workRemaining_.load(std::memory_order_relaxed);
           if (w == 0) break;
           std::this_thread::sleep_for(std::chrono::microseconds(300));
         }
         bool allEnded = true;
         for (int id = 1; id <= nIds; ++id) if (book.setOf[id] == 0 && !book.ended[id]) allEnded = false;
-        if (allEnded) {
+        if (destroyAtOnce) {
+          // no quiescence claim
+        } else if (allEnded) {
           workAtQuiescence = w;
           if (w == 0) dsched::note("quiesce %ld", w);
         } else {
